@@ -16,6 +16,6 @@ CONSTANTS
     MaxGrow = 0
     MacroGet = "bsearch_scan"
     Emit = TRUE
-INVARIANTS GetIsFirst DedupOnceFirst UniqueClaimSound BreakStops EnumIsSpec
+INVARIANTS GetIsFirst DedupOnceFirst UniqueClaimSound BreakStops EnumIsSpec SerIsEnum
 ACTION_CONSTRAINT EmitReplay
 CHECK_DEADLOCK FALSE
